@@ -104,6 +104,9 @@ func r16dep(c *core.Ctx) {
 	}
 	c.Check(okRan && m >= 10000, R, "stgutg.CreateUE:ran-ue-ngap-id", call.Pos(), fmt.Sprintf("(f(imsi)+index) %% %d", m), "RAN-UE-NGAP-ID is %s: it must be (f(IMSI) + index) mod M with a constant M >= 10000 so that up to 10000 UEs get distinct ids", clip(ran))
 	// main passes the loop index (0-based, step 1)
+	if mainUnreadable(c, R) {
+		return
+	}
 	i := 0
 
 	for _, mc := range mainCallsTo(c, pStg+".CreateUE") {
